@@ -26,7 +26,7 @@ claimed = {
  'C04': dict(level='model_checking', engine=E3, ref='§4 C04',
    technique='stateless schedule enumeration (preemption-bounded DFS) of real goroutines under a controlled cooperative scheduler with the Go race detector live in every schedule; linearizability check of LRU histories',
    text='All schedules with at most k preemptions (k=2..3 quick, 3..5 thorough) of 2-3 real goroutines calling Execute/GetSchema on one open index (3 cache kinds x 2 open modes; also on a cold index opened per execution) or Get/Put on one LRUCache, with scheduling points at every sync/atomic operation of updog and at the locks inside bbolt; per schedule: no race report, panic or deadlock, every result equals the sequential one, LRU structure consistent, direct cache histories linearizable. Supplementary (free-running, stated as not exhaustive): the real server built with -race under batches and concurrent clients.',
-   note='Scheduling points only at sync/atomic operations of updog packages (rewritten at build time); races in between are caught by the race detector, which sees only the program\'s own happens-before edges. gRPC-level concurrency is not enumerated.'),
+   note='Scheduling points at sync/atomic operations, channel operations, select statements and file-system calls of updog packages (rewritten at build time) and at bbolt's internal locks; races in between are caught by the race detector, which sees only the program\'s own happens-before edges. gRPC-level concurrency is not enumerated.'),
  'C05': dict(level='exploration', engine=E1 + ' + ' + E2, ref='§4 C05',
    technique='bounded-exhaustive enumeration of AddRow sequences x 3 writer paths x 2 open modes against the model (ids, schema, universe, exact membership via a unique column) plus BFS over open/close/probe histories',
    text='Every dataset of the small-scope product (with and without a unique id column) and of the batch-boundary families (0..2500/4097 rows, >1000 distinct values in one and two columns, exact multiples of the 1000-value batch, values on more than 4096 rows, several outputs of one writer) is written by all writer paths and probed completely; reopen histories over {open, open-preload, close, probe} are explored breadth-first on file copies.',
@@ -49,7 +49,7 @@ claimed = {
    note='As C04; 2-4 goroutines instead of 2..32.'),
 'C06': dict(level='fault_enumeration', engine=E4 + ' + ' + E5, ref='§4 C06',
    technique='exhaustive crash-point enumeration on the real bbolt write path: the file image before every write (plus page-granular torn writes) of every creation history is opened with OpenIndex; same through a self-SIGKILLing `updog create`',
-   text='For every history (in-memory writer via Flush and via WriteToBoltDatabase, big writer; sizes on both sides of the 1000-value / 1000-row batches, and scattered rows whose bitmaps exceed a page) every prefix of the sequence of file writes and torn variants of multi-page writes is materialised and must be rejected or answer all probes like the complete index; a real `updog create [-b]` is SIGKILLed before its k-th write for every k.',
+   text='For every history (in-memory writer via Flush and via WriteToBoltDatabase, big writer; sizes on both sides of the 1000-value / 1000-row batches, and scattered rows whose bitmaps exceed a page) every prefix of the sequence of file writes and torn variants of multi-page writes is materialised and must be rejected or answer all probes like the complete index; a real `updog create [-b]` is SIGKILLed before its k-th write for every k; the unmodified binary runs under ptrace and is killed (or interrupted by SIGINT / SIGTERM) before every file-changing system call, with TMPDIR next to the output and on another file system, and after every kill the command is run again on a corrected input with the leftovers in place.',
    note='Process death only (no loss of un-synced page cache); all file content changes go through the hooked bbolt write function; bbolt transaction atomicity is exercised, not assumed; one torn-init-write class is a recorded known finding of the bbolt dependency.'),
  'C09': dict(level='exploration', engine=E1, ref='§4 C09',
    technique='bounded-exhaustive enumeration of token strings (<=5/7 tokens), byte strings (<=4/5 symbols), generated sentences and finite families against an independent recogniser of the documented grammar, goroutine accounting under GOMAXPROCS=1',
@@ -79,9 +79,9 @@ claimed = {
    technique='enumeration of damaged-but-valid bbolt files (full product of coarse damages over all parts, every truncation, every byte flip) x open/close histories x option sets, with a non-blocking flock probe as release oracle',
    text='Every file of the damage space (1 266 quick / 3 026 thorough variants of a valid index, plus nonexistent, empty, non-bbolt files and a dangling symlink) x 20/32 histories: no panic, error for each listed incompleteness, path not created, file released after every failed open and after Close, Close idempotent.',
    note='Release is decided by flock(LOCK_EX|LOCK_NB) with GC disabled; a lock wait in a single-threaded history is a hang.'),
- 'C16': dict(level='exploration', engine=E1 + ' + ' + E2, ref='§4 C16',
+ 'C16': dict(level='exploration', engine=E1 + ' + ' + E2 + ' + ' + E3 + ' + ' + E5, ref='§4 C16',
    technique='enumeration of pre-existing contents x writer sizes x {Flush, create, create -b} and of all read-only histories to depth 5/7 with SHA-256/size/mode comparison after every step',
-   text='75 clobber cases (8 kinds of pre-existing content incl. empty and foreign bbolt databases and symlinks x 3 sizes x 3 creation paths) must fail and leave the file unchanged; for every write k of Flush a competing exclusive creation of the output path at that moment must not be overwritten; every enabled history over {4 open variants, 4 queries, GetSchema, Close} on copies of valid indexes written by all three writer paths must leave the bytes unchanged after every step.',
+   text='75 clobber cases (8 kinds of pre-existing content incl. empty and foreign bbolt databases and symlinks x 3 sizes x 3 creation paths) must fail and leave the file unchanged; for every write k of Flush a competing exclusive creation of the output path at that moment must not be overwritten; every enabled history over {4 open variants, 4 queries, GetSchema, Close} on copies of valid indexes written by all three writer paths must leave the bytes unchanged after every step; two concurrent Flush calls to one fresh path are explored under the controlled scheduler with file-system operations as scheduling points; `updog create` with an existing output is interrupted by SIGINT / SIGTERM at every point of its run (ptrace).',
    note='Runs as root: read-only permission does not by itself protect the file, the byte comparison does the work.'),
  'C19': dict(level='exploration', engine=E1 + ' + ' + E5, ref='§4 C19',
    technique='bounded-exhaustive enumeration of CSV files (6 headers / 30 header pairs x 6 field values x 0..2/3 records; prefix-collision headers; 999..2001 records; raw inputs with unquoted blanks) through the real `updog create` in both modes, output compared with the model; malformed inputs and existing outputs',
